@@ -164,6 +164,28 @@ def fit_body(case):
         lin = al * coeff + be * np.asarray(ba.coeff)
         check(bool(np.all(np.abs(np.asarray(bc.coeff) - lin) <= 3 * ctol * max(1.0, np.abs(ya).max() / scale))), 'fit:not-linear-in-y',
               lambda: dict(maxdev=float(np.abs(np.asarray(bc.coeff) - lin).max())))
+    # a second data set fitted with the same object and the same abscissa buffer, overwritten in place: the fit belongs to the
+    # data it is given now (nothing about an earlier call may be remembered)
+    xb = x.copy()
+    bb = call(bspline, xb, nord=nord, **{k: (v.copy() if hasattr(v, 'copy') else v) for k, v in kw.items()})
+    call(bb.fit, xb, y.copy(), w.copy())
+    if n > 2:
+        xb[1:-1] = x[1:-1] + 0.45 * (x[2:] - x[1:-1])         # stays sorted and inside the same range
+    A2 = bslib.design(t, nord, xb, 'left')
+    Aw2 = A2 * sw[:, None]
+    sv2 = np.linalg.svd(Aw2, compute_uv=False)
+    cond2 = sv2[0] / sv2[-1] if (sv2[-1] > 0 and len(sv2) == A2.shape[1]) else np.inf
+    seg2 = all((((xb > a) | ((q == 0) & (xb >= a))) & (xb <= c) & (w > 0)).any() for q, (a, c) in enumerate(zip(inner[:-1], inner[1:])))
+    d2 = np.diag(Aw2.T.dot(Aw2))
+    if seg2 and cond2 < 1e4 and d2.min() >= 1e-6 * d2.mean():
+        yb = make_y(case, xb)
+        s3, yfit3 = call(bb.fit, xb, yb.copy(), w.copy())
+        with judge('refit-in-place'):
+            ref3, _, _ = bslib.weighted_lstsq(A2, yb, w)
+            sc3 = max(np.abs(yb).max(), 1e-300)
+            check(bool(np.all(np.abs(np.asarray(yfit3)[good] - A2.dot(ref3)[good]) <= 1e-6 * sc3)), 'fit:second-fit-on-same-object-not-optimal',
+                  lambda: dict(maxdev=float(np.abs(np.asarray(yfit3) - A2.dot(ref3))[good].max()), nord=nord))
+        note_label('refit-in-place')
 
 
 def fit_classify(case):
